@@ -97,9 +97,16 @@ def run(ctx: core.Ctx):
 
     # (b) generated model vs the real class, per dekad
     raws = list(range(36, 360000))          # every dekad 0001-01-d1 .. 9999-12-d3, both tiers
-    for i in range(0, len(raws), CH):
+    # the generated model lives in its own executable (rebuilt here from the regenerated Hdc/Gen/Dekad.lean); when the new source cannot
+    # be translated or the translation does not compile, the obligations are already broken and the oracle below is the search
+    try:
+        dk = core.Driver("hdc-driver-dekad", rebuild=True)
+    except core.Infra as e:
+        dk = None
+        ctx.notes["generated_model_driver"] = "not built: " + str(e)[-200:]
+    for i in range(0, len(raws) if dk else 0, CH):
         chunk = raws[i:i + CH]
-        ans = ctx.driver.ask([f"dekadraw {r}" for r in chunk])
+        ans = dk.ask([f"dekadraw {r}" for r in chunk])
         for r, a in zip(chunk, ans):
             want = real_fields(Dekad, r)
             if a != want:
